@@ -29,7 +29,7 @@ import elementpath.aliases as ta
 
 from elementpath.protocols import ElementProtocol, EtreeElementProtocol
 from elementpath.exceptions import ElementPathTypeError
-from elementpath.datatypes import AbstractBinary, AbstractDateTime, AnyAtomicType, AnyURI, \
+from elementpath.datatypes import AbstractBinary, AbstractDateTime, AnyAtomicType, \
     Base64Binary, BooleanProxy, DateTime, DoubleProxy, DoubleProxy10, Duration, \
     Language, NumericProxy, Timezone, UntypedAtomic
 from elementpath.namespaces import XML_BASE, XPATH_FUNCTIONS_NAMESPACE
@@ -124,24 +124,7 @@ def evaluate__map_contains(self: XPathFunction, context: ta.ContextType = None) 
 
     map_ = self.get_argument(context, required=True, cls=XPathMap)
     key = self.get_argument(context, index=1, required=True, cls=AnyAtomicType)
-    if isinstance(key, float) and math.isnan(key):
-        return any(isinstance(k, float) and math.isnan(k) for k in map_.keys(context))
-
-    string_types = (str, AnyURI, UntypedAtomic)
-    for k in map_.keys(context):
-        if isinstance(k, string_types) or isinstance(key, string_types):
-            # strings, anyURIs and untyped atomic values match each other by codepoints
-            if isinstance(k, string_types) and isinstance(key, string_types) and str(k) == str(key):
-                return True
-            continue
-
-        try:
-            if k == key:
-                return True
-        except TypeError:
-            continue
-    else:
-        return False
+    return any(same_key(k, key) for k in map_.keys(context))
 
 
 @method(function('get', prefix='map', nargs=2,
